@@ -28,7 +28,8 @@ let decode_arg a = unhex a
 
 let () =
   let ic = if Array.length Sys.argv > 1 then open_in_bin Sys.argv.(1) else stdin in
-  let total = ref 0 and bad = ref 0 in
+  let oc = if Array.length Sys.argv > 2 then open_out_bin Sys.argv.(2) else stdout in
+  let total = ref 0 and bad = ref 0 and decided = ref 0 and specfail = ref 0 and shown_sf = ref 0 in
   let shown = ref 0 in
   (try
      while true do
@@ -45,15 +46,26 @@ let () =
            let margs = List.map (fun a -> bytes_of_string (decode_arg a)) args in
            let r = string_of_bytes (Model.run (bytes_of_string fn) margs) in
            incr total;
+           (match Model.oracle (bytes_of_string fn) margs with
+            | Some e ->
+              incr decided;
+              let e = string_of_bytes e in
+              let obs_class = if obs = "ok" then "ok" else "reject" in
+              if e <> obs_class && e <> obs then begin
+                incr specfail;
+                if !shown_sf < 100000 then begin incr shown_sf; Printf.fprintf oc "SPECFAIL\t%s\tspec=%s\n" line e end
+              end
+            | None -> ());
            if r <> obs then begin
              incr bad;
-             if !shown < 200 then begin
+             if !shown < 100000 then begin
                incr shown;
-               Printf.printf "MISMATCH\t%s\tmodel=%s\n" line r
+               Printf.fprintf oc "MISMATCH\t%s\tmodel=%s\n" line r
              end
            end
          | [] -> ()
        end
      done
    with End_of_file -> ());
-  Printf.printf "SUMMARY total=%d mismatches=%d\n" !total !bad
+  if oc != stdout then close_out oc;
+  Printf.printf "SUMMARY total=%d mismatches=%d spec_decided=%d specfail=%d\n" !total !bad !decided !specfail
